@@ -188,8 +188,7 @@ func genWoHeaderMon(c *ctx) *gen {
 		// identity: (Hash, SealHash) -- after the fork Hash() is the hash of the AuxPow alone, which commits to
 		// SealHash() through its coinbase; a field mutation must change at least the seal hash, and the bytes
 		muts := whMuts(name)
-		for i := 0; i < 3; i++ {
-			k := r.Intn(len(muts))
+		for k := range muts {
 			m := types.CopyWorkObjectHeader(wh)
 			muts[k].f(m, r, loc)
 			mb, _ := marshalWh(m)
